@@ -21,7 +21,10 @@ for mid in args:
         mp = os.path.join(outd, "meta%d.json" % n)
         if not os.path.exists(mp): continue
         meta = json.load(open(mp)); patch = os.path.join(outd, "patch%d.diff" % n)
+        pre = re.search(r"\(after cp -r (\S+) <repo root>\)", meta["demo_cmd"])
         cmd = re.split(r"\s{2,}\(|\s+#", meta["demo_cmd"])[0].strip()
+        if pre: cmd = "cp -r %s %s/ && " % (pre.group(1), wt) + cmd
+        cmd = re.sub(r";\s*git checkout -- \S+\s*$", "", cmd)
         cmd = re.sub(r"\(cd \$REPO && git apply [^)]*\) && ", "", cmd)   # the script applies / removes the patch itself
         cmd = re.sub(r"cd \S+ && git apply \S+ \(omit for the clean run\); ", "", cmd)
         cmd = cmd.replace("<repo>", wt).replace("<worktree>", wt)
